@@ -43,6 +43,13 @@ CHECKS = {
         note="Relative to the abstract Storage contract (CSVStorage.__len__ counting physical lines is design-time defect #13, not yet triaged by this check). Stand-in bound: see evidence.coverage.bounded.",
         design_ref="DESIGN.md 5 (C07), 12.4",
     ),
+    "C08": dict(
+        category="proof",
+        technique="contract-based deductive verification (pyvc): normalisation postcondition of the insert path, timestamp-comparison exactness of the time index, two LRA lemmas for float timestamps; bounded stand-in under four process time zones alongside",
+        text="Proved: every point stored by insert/insert_multiple carries time = astimezone(utc) of the given datetime (same instant) or the call's single insertion time when absent; the time index appends exactly timestamp() of that time; Index._search_timestamps answers the six comparisons exactly by comparing POSIX timestamps (with the bisect helpers of C18); and, from the IEEE-754 rounding bound for the supported range, that float timestamps of distinct microsecond instants are strictly ordered and that rounding back returns the instant (linear real arithmetic). update(time=...) normalisation (fix e67c567), the isoformat round trip of the codec and get_timestamps are covered only by the bounded stand-in (instants at range edges, adjacent microseconds, DST gaps/folds, four TZ values).",
+        note="Relative to the datetime model (astimezone keeps the instant; aware datetimes compare by instant; timestamp() correctly rounded), the abstract Storage contract, pyvc's encoding, z3/cvc5.",
+        design_ref="DESIGN.md 5 (C08), 4.3, 12",
+    ),
     "C09": dict(
         category="proof",
         technique="contract-based deductive verification (pyvc): every constructor of the query DSL and both __call__ methods against the documented meaning, closures verified over their captured variables, path walk by loop invariant + induction lemma; exhaustive bounded stand-in alongside",
